@@ -121,6 +121,8 @@ def gen_cases(rnd, n, lang):
         elif mode == 'top':
             head += 'top 2 '
         text = head + ', '.join(texts)
+        if mode != 'group' and rnd.random() < 0.04:
+            text += rnd.choice([',', ', ', ' ,'])        # a trailing comma adds no column (D22)
         if join:
             text += (' left join b on a1 == b1' if left else ' join b on a1 == b1')
         if mode == 'group':
